@@ -14,7 +14,7 @@ NOTE = ("trusted: the engine (/verif/engine: SSA interpreter, term rewriting, in
 TECH = "solver-based: bounded symbolic execution of go/ssa + SMT (z3/cvc5), native replay of counterexamples"
 
 claimed = {
- 'C01': '§4 C01', 'C02': '§4 C02', 'C04': '§4 C04', 'C05': '§4 C05', 'C12': '§4 C12', 'C13': '§4 C13', 'C15': '§4 C15', 'C14': '§4 C14', 'C19': '§4 C19',
+ 'C01': '§4 C01', 'C07': '§4 C07', 'C17': '§4 C17', 'C18': '§4 C18', 'C02': '§4 C02', 'C04': '§4 C04', 'C05': '§4 C05', 'C12': '§4 C12', 'C13': '§4 C13', 'C15': '§4 C15', 'C14': '§4 C14', 'C19': '§4 C19',
  'C03': '§4 C03', 'C06': '§4 C06', 'C08': '§4 C08', 'C09': '§4 C09', 'C10': '§4 C10', 'C11': '§4 C11', 'C16': '§4 C16',
 }
 na = {}
